@@ -11,10 +11,11 @@ CFG = {
              "mapping two glyphs to one file; every 5th tree carries the two legal names g711c6db79da05b78 / gdde3a1201b0b8338 whose DefaultHasher::new() "
              "values are equal, as glyph names and component bases within one layer and split across layers; every 6th tree has 5-8 layers of very different "
              "sizes with the default layer not first in layercontents.plist; half of the trees get a history of 1-30 public-API operations between load and save "
-             "(insert_glyph, remove_glyph, rename_glyph, entry().or_insert, exchange / copy of whole glyphs through get_glyph_mut, on existing / early-sorting / previously used names) applied by both builds, the dump "
+             "(insert_glyph, remove_glyph, rename_glyph, entry().or_insert, exchange / copy of whole glyphs through get_glyph_mut, half of the histories insert a pair of names that get the same file name unless the clash check works "
+             "(non-ASCII capital + illegal character; the first in name order is a ~300 kB glyph), on existing / early-sorting / previously used names) applied by both builds, the dump "
              "after the history is compared as well; four trees with 33/41/49/70 layers (more than the 32-element small-sort threshold of std) and the default layer "
              "last / middle / second; six trees of 1/2/63/64/65/257 glyphs (around rayon's splitting thresholds) whose 2-3 layers hold the same names under the SAME file names and whose "
-             "contents.plist values carry a directory component (../<other layer>/f, ./f, sub/f) at the first / middle / last position; "
+             "contents.plist values carry a directory component (../<other layer>/f, ./f) at the first / middle / last position, most of them with the whole last layer in sub/ (save outcome incl. io error kind compared between builds); "
              "four UFO 2 trees with unprefixed kerning groups named like glyphs of ANOTHER font, like dangling component bases and like "
              "own glyphs, groups and kerning after upconversion are part of the dump; every 4th tree and the UFO 2 trees are loaded after another font "
              "in the SAME process, before every repetition, in both builds) loaded, dumped and saved by the sequential build of the harness and by the rayon build "
